@@ -63,7 +63,7 @@ def run(cfg, w):
     from flodym.export.data_writer import convert_to_dict, export_mfa_flows_to_csv, export_mfa_stocks_to_csv
     from flodym.export.helper import to_valid_file_name
 
-    mfa, F, S = c02._build(cfg, w)
+    mfa, F, S = c02._build(cfg, w, fortran=True)
     for name, (a, b, d, V) in F.items():
         if V.size > 4:
             w.assume_distinct(V)
